@@ -34,6 +34,9 @@ RULES = {
     'ELEMENT-MEMBERSHIP': 'whether a key is present in a buffer of user elements is decided by `in` / `not in` (or a sentinel '
                           'comparison), never by the truthiness or identity of the stored element: 0, "", None and interned '
                           'values are elements too',
+    'EAGER-UPDATE': 'no node defines update() as a native `async def`: such a coroutine function does not run until somebody awaits '
+                    'it, and callers that do not use the return value (collect.flush, a loop-less emit) would silently lose the '
+                    'element; tornado coroutines (gen.coroutine) start running when called',
     'TICK-PERIOD': 'each cycle of a tick loop (timed_window, timed_window_unique) sleeps exactly once, unconditionally, for '
                    'self.interval, after having awaited its emission; self.interval is convert_interval(<the constructor argument>)',
     'META-MEMBERS': 'an emission built from an element buffer carries the content of that buffer\'s metadata twin',
@@ -1003,6 +1006,19 @@ def check_serial_drain(ctx, R, classes):
                             ok = any(x.kind == 'SUS' and x.b and ('field:' + f) in x.b for f in slots for x in rest)
                         if not ok and not is_failure(seg, status):
                             bad = evs
+            # the take from the node's queue is awaited itself: wrapped in with_timeout()/wait_for() an expired wait leaves the
+            # getter registered in the queue, and that orphan swallows the next element that is put
+            aband = None
+            for x in own_nodes(drain.node):
+                if isinstance(x, ast.Call) and src(x.func).split('.')[-1] in ('with_timeout', 'wait_for', 'shield') and any(
+                        isinstance(y, ast.Call) and isinstance(y.func, ast.Attribute) and y.func.attr in ('get', 'get_nowait')
+                        and self_field(y.func.value) is not None for a_ in x.args for y in ast.walk(a_)):
+                    aband = x
+            if n:
+                R.ob('SERIAL-DRAIN', con, 'take-not-abandoned', aband is None,
+                     'the queue take is wrapped in %s(...): when the timeout expires the getter stays registered and swallows '
+                     'the next element' % (src(aband.func) if aband is not None else ''),
+                     ctx.where(drain, aband.lineno) if aband is not None else ctx.where(drain, drain.node.lineno))
             if n:
                 R.ob('SERIAL-DRAIN', con, 'await-before-next-take', bad is None,
                      'the drain loop starts its next iteration without having awaited the emission of this one',
@@ -1467,3 +1483,18 @@ def check_element_membership(ctx, R, classes):
             if n:
                 R.ob('ELEMENT-MEMBERSHIP', ctx.construct(fn), 'presence-test', bad is None, bad[1] if bad else '',
                      ctx.where(fn, bad[0].lineno) if bad else ctx.where(fn, fn.node.lineno), None, n)
+
+
+def check_eager_update(ctx, R, classes):
+    # (terminal sinks whose update() is `async def` - to_websocket - only do I/O that has to be awaited anyway; they are noted)
+    for c in ctx.model.nodes:
+        u = c.methods.get('update')
+        if u is not None and isinstance(u.node, ast.AsyncFunctionDef) and c not in classes and c.module.name.startswith('streamz.'):
+            R.note('EAGER-UPDATE outside the anchors: %s.update is a native coroutine function (lost if a caller drops the result)' % c.fq)
+    for cls in classes:
+        up = cls.methods.get('update')
+        if up is None:
+            continue
+        R.ob('EAGER-UPDATE', ctx.construct(up), 'update', not isinstance(up.node, ast.AsyncFunctionDef),
+             'update() is a native coroutine function: its body does not run (nothing is reserved, buffered or emitted) unless '
+             'the caller awaits the returned coroutine object', ctx.where(up, up.node.lineno))
